@@ -743,7 +743,7 @@ func (r *runner) build() error {
 	}
 	for i, b := range sc.Starts {
 		a.OnStart(func(ctx context.Context) error {
-			r.ev(fmt.Sprintf("s %d %s", i, r.probes2()))
+			r.ev(fmt.Sprintf("s %d %s %s", i, r.probes2(), b2s(r.a.Router().Frozen())))
 			var err error
 			switch b {
 			case bErr:
@@ -773,7 +773,7 @@ func (r *runner) build() error {
 					close(r.readyAll)
 				}
 			}()
-			r.ev(fmt.Sprintf("y %d %s", i, r.probes2()))
+			r.ev(fmt.Sprintf("y %d %s %s", i, r.probes2(), b2s(r.a.Router().Frozen())))
 			if b == bPanic {
 				panic("ready hook panic (injected)")
 			}
@@ -1154,6 +1154,58 @@ func emit(id string, sc *Scenario, o obsT, st *hx.Stats) string {
 		}
 		if sc.needsSerial() {
 			st.Count("serial_phase")
+		}
+		names := []string{"ok", "err", "panic", "block", "cancelok"}
+		for kind, xs := range map[string][]int{"start": sc.Starts, "ready": sc.Readies, "shut": sc.Shuts, "stop": sc.Stops} {
+			st.Count(fmt.Sprintf("n_%s_%d", kind, min(len(xs), 4)))
+			for _, b := range xs {
+				if b != bOK && b < len(names) {
+					st.Count("fault_" + kind + "_" + names[b])
+				}
+			}
+		}
+		for _, q := range sc.Reqs {
+			st.Count("req_" + q.Kind)
+		}
+		for i, rd := range sc.Rounds {
+			if rd.Trig == 1 {
+				st.Count("round_sighup")
+			} else {
+				st.Count("round_prog")
+			}
+			if sc.pairAt(i) {
+				st.Count("round_concurrent_pair")
+			}
+			if rd.CancelAt >= 0 {
+				st.Count("signal_inside_reload")
+			}
+			for _, b := range rd.Beh {
+				if b != bOK && b < len(names) {
+					st.Count("fault_reload_" + names[b])
+				}
+			}
+		}
+		sigPos := "signal_none"
+		for i, e := range o.Log {
+			if e == "c" {
+				switch {
+				case i > 0 && strings.HasPrefix(o.Log[i-1], "s "):
+					sigPos = "signal_during_startup"
+				case i > 0 && strings.HasPrefix(o.Log[i-1], "l "):
+					sigPos = "signal_in_reload_hook"
+				case len(sc.Reqs) > 0:
+					sigPos = "signal_with_requests_in_flight"
+				default:
+					sigPos = "signal_idle"
+				}
+			}
+		}
+		st.Count(sigPos)
+		for _, e := range o.Log {
+			if strings.HasPrefix(e, "h ") && strings.HasSuffix(e, " 0") {
+				st.Count("shutdown_hook_after_deadline")
+				break
+			}
 		}
 		for _, n := range o.Notes {
 			st.Count("note_" + strings.ReplaceAll(n, " ", "_"))
